@@ -200,6 +200,8 @@ func init() {
 			in.lockTrace = v != 0
 		case "racecheck":
 			in.raceCheck = v != 0
+		case "hashuf":
+			in.hashUF = v != 0
 		case "hangcheck":
 			in.path.reached["opt:hangcheck"] = true
 		default:
